@@ -58,6 +58,7 @@ def run(F, chk):
                 ra.violation(key, b.where(bi), "a path removes a stream and returns without re-examining the cached %s slot (dangling gid)" % fld)
     activity_rule(F, chk)
     window_arith_rule(F, chk)
+    refused_stream_watermark_rule(F, chk)
     # ---------------- R-C15-b --------------------------------------------------
     rb = chk.rule("R-C15-b", "T4", "shrink_trailing_recycle is called only from Context::create_stream", floor=1)
     callers = sorted({b.path for b, bi, t in F.call_sites(MUX + "Context::<L>::shrink_trailing_recycle")})
@@ -348,3 +349,35 @@ def window_arith_rule(F, chk):
             else:
                 r.violation("%s|raw %s on a window" % (b.path, rv["op"]), b.where(bi, si), "a flow-control window is grown with an unchecked `%s`: a peer-chosen increment / SETTINGS delta overflows i32 (worker panic with overflow checks, wrapped negative window without)" % {"Add": "+", "Mul": "*", "Shl": "<<"}[rv["op"]])
     r.require(n >= 2, "only %d raw window debits found (positive control of the matcher)" % n)
+
+
+def refused_stream_watermark_rule(F, chk):
+    """R-C15-j: a stream the peer opened and sozu REFUSED is closed, not idle.  The classifier of later frames decides
+    `closed vs idle` with `stream_id <= highest_peer_stream_id` (idle => connection error), so every refusal of a new
+    stream must first raise that watermark exactly as an accepted stream does.  Siblings: each call of
+    refuse_stream_and_discard in the header dispatcher follows the `if stream_id > highest { highest = stream_id }` step."""
+    r = chk.rule("R-C15-j", "T8", "a refused stream still advances highest_peer_stream_id", floor=2)
+    cands = [p for p in F.paths() if p.startswith(H2) and p.endswith("::handle_header_state")]
+    if not r.require(cands, "handle_header_state not found"):
+        return
+    b = F.body(cands[0])
+    r.fn(b.path)
+    refusals = [bi for bi, t in b.calls() if callee_of(t).endswith("::refuse_stream_and_discard")]
+    writes = [bi for bi, si, st in b.stmts() if isinstance(st.get("lhs"), dict) and proj_fields(st["lhs"]) and proj_fields(st["lhs"])[-1][2] == "highest_peer_stream_id"]
+    # the step = a comparison with the watermark whose true edge performs the write; "passing the step" = passing that switch
+    steps = []
+    for sb, f, t, atom in guards.bool_switches(b):
+        if atom[0] != "cmp" or f == t:
+            continue
+        sl = [guards.slice_of_operand(b, atom[2]), guards.slice_of_operand(b, atom[3])]
+        if any(fl == "highest_peer_stream_id" for s_ in sl for _, fl in s_["fields"]) and any(w in b.reach_from([t]) or w in b.reach_from([f]) for w in writes):
+            if any(w in (t, f) or w in b.reach_from([t]) for w in writes):
+                steps.append(sb)
+    if not r.require(refusals, "handle_header_state: no refuse_stream_and_discard call"):
+        return
+    for i, c in enumerate(sorted(refusals)):
+        key = "%s|refusal#%d after the watermark step" % (b.path, i)
+        if any(b.dominates(s_, c) for s_ in steps):
+            r.ok(key, b.where(c), "dominated by the `stream_id > highest_peer_stream_id` update step")
+        else:
+            r.violation(key, b.where(c), "a new stream is refused without raising highest_peer_stream_id first: a DATA / RST_STREAM / WINDOW_UPDATE already in flight for it is then classified as a frame on an IDLE stream and answered with GOAWAY(PROTOCOL_ERROR), tearing down every healthy stream of the connection")
